@@ -14,7 +14,7 @@ ALLOC_POOL = [".text", ".data", ".rodata", ".sdata", ".rdata", ".late_rodata", "
 NOLOAD_POOL = [".sbss", ".scommon", ".bss", "COMMON", ".noload2", "mybss"]
 SUB_POOL = [".rdata", ".late_rodata", ".text.hot", ".data.rel", ".sdata2", ".bss.extra", "sub1", "sub2"]
 DIRS = ["src", "build", "lib", "asm", "a.b", "x", "{version}", "{region}", "v_{version}", "{version}_{region}",
-        "pre{compiler}post", "{version}{region}", "..", "."]
+        "pre{compiler}post", "{version}{region}", "..", ".", "m\u00fasica", "\u00f1_{version}", "{version}_\u00e9t\u00e9"]
 FILES = ["main.o", "boot.o", "util.o", "libc.a", "libgcc.a", "data.bin", "noext", "f{version}.o",
          "{compiler}.a", "x.y.o", "entry.o", "dma.o", "rsp.o"]
 SYMS = ["sym_a", "entrypoint", "_start", "Vine1Base", "gFoo", "D_80000000", "bar"]
@@ -68,7 +68,10 @@ class Gen:
         return opts
 
     def cond_pairs(self):
-        return [[self.pick(OPT_KEYS), self.pick(OPT_VALS[:5])] for _ in range(self.r.randint(1, 3))]
+        l = [[self.pick(OPT_KEYS), self.pick(OPT_VALS[:5])] for _ in range(self.r.randint(1, 3))]
+        if self.r.random() < 0.15:
+            l.insert(self.r.randrange(len(l) + 1), list(self.pick(l)))      # the same pair twice
+        return l
 
     def conds(self, rec):
         if self.chance("cond"):
@@ -105,11 +108,11 @@ class Gen:
         elif r < self.p["group"] + 0.08:
             rec["kind"] = "pad"
             rec["pad_amount"] = self.pick([0, 4, 0x10, 0x100] + ([] if self.p["linkable"] else [0xFFFFFFFF]))
-            rec["section"] = self.pick(sections + [".nosuch"])
+            rec["section"] = self.pick(sections + [".nosuch"] + SUB_POOL[:4])
         elif r < self.p["group"] + 0.16:
             rec["kind"] = "linker_offset"
             rec["linker_offset_name"] = self.pick(["off_a", "off_b", "mid", "x"])
-            rec["section"] = self.pick(sections + [".nosuch"])
+            rec["section"] = self.pick(sections + [".nosuch"] + SUB_POOL[:4])
         else:
             rec["path"] = self.path(FILES, 1)
             k = self.r.random()
@@ -203,6 +206,12 @@ class Gen:
         if self.chance("subgroups"):
             keys = self.subset(sections, 1, 2)
             sg = {k: self.subset(SUB_POOL, 1, 2) for k in keys}
+            if self.r.random() < 0.1 and len(sections) > 1:
+                # a listed section that is also somebody's sub-group member
+                k0 = self.pick(list(sg))
+                other = self.pick([x for x in sections if x != k0])
+                if other not in sg:
+                    sg[k0] = sg[k0] + [other]
             if self.r.random() < 0.35:
                 # a sub-group member that has sub-groups of its own (nesting depth two and more)
                 members = [m for v in sg.values() for m in v]
@@ -273,6 +282,8 @@ class Gen:
             else:
                 c["follows_classes"] = self.subset(names[:i], 1, 2) if self.r.random() < 0.9 else \
                     self.subset(names, 1, 2)
+            if self.r.random() < 0.06:
+                c["follows_classes"] = []          # an explicitly empty list next to (or instead of) a placement
             if self.r.random() < self.p["class_keep"]:
                 k = self.r.randrange(3)
                 c["keep_sections"] = True if k == 0 else False if k == 1 else self.subset([".text", ".data", ".bss", ".rodata"], 0, 3)
@@ -285,7 +296,10 @@ class Gen:
         if self.chance("toplevel"):
             l = []
             for _ in range(self.r.randint(1, 4)):
-                a = {"name": self.pick((["usr_a", "usr_b"] if self.p["linkable"] else SYMS) + ["dummy1", "dummy2"]),
+                gen_names = [] if self.p["linkable"] else \
+                    [sg["name"] + suf for sg in doc.get("segments", [])[:2] for suf in ("_VRAM_END", "_ROM_START")]
+                a = {"name": self.pick((["usr_a", "usr_b"] if self.p["linkable"] else SYMS) + ["dummy1", "dummy2"] +
+                                       (gen_names if self.r.random() < 0.2 else [])),
                      "value": self.pick(["0x80000000", "sym_a + 4", "gFoo", "1"] if self.p["linkable"]
                                         else ["0x80000000", "sym_a + 4", "boot_VRAM", "1"])}
                 for f in ("provide", "hidden"):
